@@ -16,7 +16,7 @@ BASE = {
     "GenesisPos": {"g1": 10000, "g2": 10000, "g3": 10500, "g4": 11000, "g5": 12000, "g6": 15000, "g7": 20000},
     "Fund": 100000, "Cand": ["p1"], "Authorizers": ["a1", "a2"], "AuthTargets": ["g1", "g7", "p1"], "OpTargets": ["g1", "g7", "p1"],
     "RegPos": [16000], "AuthPos": [1000], "UnAuthPos": [500, 1000], "WdPos": [500, 1000], "InitDelta": [1000],
-    "FeeVals": [100003], "CostVals": [[20, 30]], "MaxVals": [100000],
+    "FeeVals": [100003], "CostVals": [[20, 30]], "MaxVals": [100000], "GasVals": [1], "DappVals": [20],
     "Acts": ["Register", "SetMax", "Authorize", "UnAuthorize", "Withdraw", "Quit", "Black", "White", "Commit", "AddInit", "ReduceInit",
              "SetCost", "Fee", "WithdrawFee", "TransferPenalty"],
     "WithInvalid": True, "MaxOps": 3, "Script": [], "GenesisOwners": {},
@@ -83,6 +83,8 @@ G_InitDelta == %s
 G_FeeVals == %s
 G_CostVals == %s
 G_MaxVals == %s
+G_GasVals == %s
+G_DappVals == %s
 G_Acts == %s
 G_Script == %s
 =============================================================================
@@ -91,7 +93,7 @@ G_Script == %s
        tset(c["Authorizers"]), tset(c["AuthTargets"]), tset(c["OpTargets"]),
        " ".join(("CASE " if i == 0 else "[] ") + 'p = "%s" -> %d' % (g, v) for i, (g, v) in enumerate(sorted(c["GenesisPos"].items()))),
        c["Fund"], tset(c["RegPos"]), tset(c["AuthPos"]), tset(c["UnAuthPos"]), tset(c["WdPos"]), tset(c["InitDelta"]),
-       tset(c["FeeVals"]), tset(c["CostVals"]), tset(c["MaxVals"]), tset(c["Acts"]),
+       tset(c["FeeVals"]), tset(c["CostVals"]), tset(c["MaxVals"]), tset(c["GasVals"]), tset(c["DappVals"]), tset(c["Acts"]),
        tla([act_rec(a) for a in c["Script"]]))
     cfg = """SPECIFICATION Spec
 CONSTANTS
@@ -121,6 +123,8 @@ CONSTANTS
   FeeVals <- G_FeeVals
   CostVals <- G_CostVals
   MaxVals <- G_MaxVals
+  GasVals <- G_GasVals
+  DappVals <- G_DappVals
   Authorizers <- G_Authorizers
   AuthTargets <- G_AuthTargets
   OpTargets <- G_OpTargets
@@ -164,6 +168,7 @@ def canon_model(x):
         "splitFee": x["splitFee"],
         "attr": {r[0]: r[1:8] for r in x["attr"]},
         "black": sorted(x["black"]),
+        "dappFee": x["dappFee"], "hasDapp": x["hasDapp"],
     }
 
 
@@ -181,11 +186,12 @@ def canon_obs(o):
         "attr": {p: [v["t"], v["t1"], v["t2"], v["s"], v["s1"], v["s2"], v["max"]] for p, v in o["attr"].items()
                  if [v["t"], v["t1"], v["t2"], v["s"], v["s1"], v["s2"], v["max"]] != DEF_ATTR},
         "black": sorted(o["black"]),
+        "dappFee": o["dappFee"], "hasDapp": o["hasDapp"],
     }
 
 
 STAKE_FIELDS = ["pool", "prev", "au", "stake", "pen", "ont", "black"]
-FEE_FIELDS = ["ong", "fee", "splitFee", "attr"]
+FEE_FIELDS = ["ong", "fee", "splitFee", "attr", "dappFee", "hasDapp"]
 
 
 def diff(m, r, fields):
@@ -394,7 +400,7 @@ def sparse_obs(o):
         "fee": [[k, v] for k, v in sorted(c["fee"].items())],
         "splitFee": c["splitFee"],
         "attr": [[p] + v for p, v in sorted(c["attr"].items())],
-        "black": c["black"],
+        "black": c["black"], "dappFee": c["dappFee"], "hasDapp": c["hasDapp"],
     }
 
 
@@ -538,12 +544,16 @@ def configs(prop, thorough):
     base = dict(Script=script, Acts=C10_ACTS, FeeVals=[7, 100003], UnAuthPos=[500], WdPos=[500], CostVals=[[0, 100]],
                 AuthTargets=["g7", "p1"], OpTargets=["g7", "p1"])
     demote = dict(base, Script=[full(a) for a in C10_DEMOTE_PREFIX], GenesisPos=DEMOTE_POS, GenesisOwners={"g1": "o2"}, AuthTargets=["g1", "p1"], OpTargets=["g1", "p1"])
-    cs = [conf(tag="split-d2", MaxOps=2, **base), conf(tag="demotion-split-d2", MaxOps=2, **demote)]
+    # gas address and DappFee as admin actions (setGasAddress, updateGlobalParam2): executeSplit2's dapp step
+    dapp = dict(base, Script=script + [full({"name": "SetGas", "x": 1})], GasVals=[0, 1], DappVals=[0, 20, 50],
+                Acts=["Commit", "Fee", "WithdrawFee", "SetGas", "SetDappFee"], FeeVals=[100003])
+    cs = [conf(tag="split-d2", MaxOps=2, **base), conf(tag="demotion-split-d2", MaxOps=2, **demote), conf(tag="dapp-d3", MaxOps=3, **dapp)]
     if thorough:
         cs = [conf(tag="split-d3", MaxOps=3, invariants=BASE["invariants"] + " NoWrapBlack", **base),
               conf(tag="split-A100-dapp", MaxOps=2, A=100, B=0, DappFee=50, HasDapp=True, **base),
               conf(tag="split-A0-num8", MaxOps=2, A=0, B=100, SplitNum=8, Penalty=100, **base),
-              conf(tag="demotion-split-d3", MaxOps=3, **demote)]
+              conf(tag="demotion-split-d3", MaxOps=3, **demote),
+              conf(tag="dapp-d4", MaxOps=4, WithInvalid=False, **dapp)]
     return cs
 
 
@@ -631,7 +641,7 @@ def run_check(ctx, prop):
         if paths and len(ctx.samples) < 2:
             ctx.samples.append({"replayed_path": [to_step(s["act"]) for s in paths[len(paths) // 2]["steps"]]})
     # every action of the specification must have been taken (successfully) somewhere
-    need = ([a for a in C10_ACTS if a != "ReduceInit"] if prop == "C10" else [a for a in ALL_ACTS if a not in ("SetCost", "Fee", "WithdrawFee") or not ctx.thorough])
+    need = ([a for a in C10_ACTS if a != "ReduceInit"] + ["SetGas", "SetDappFee"] if prop == "C10" else [a for a in ALL_ACTS if a not in ("SetCost", "Fee", "WithdrawFee") or not ctx.thorough])
     missing = [a for a in need if (a, True) not in acts_seen]
     if missing and not ctx.infra_errors:
         ctx.infra("vacuous model run: actions never taken successfully: %s" % missing)
